@@ -52,6 +52,18 @@ theorem record_lists_members (H : String → String) (di : String) (ops : List O
 example : recordText "d-1.dist-info" (run {} [.addFile "a,b.py" 0o100644 "H1" 3]).records =
     "\"a,b.py\",sha256=H1,3\nd-1.dist-info/RECORD,,\n" := by decide
 
+/-- **RECORD reads back.**  Parsing the RECORD text with a csv reader (excel dialect: `,` delimiter, `"` quoting with
+doubling, records ended by `\n` outside quotes) returns exactly the rows that were written — whatever characters the
+paths contain (commas, quotes, line feeds). Together with `record_lists_members`: an installer reading RECORD sees
+each member's path, `sha256=`digest and size. -/
+theorem record_reads_back (di : String) (ops : List Op) :
+    csvParse (recordText di (run {} ops).records).toList =
+      (recordRows di (run {} ops).records).map (·.map String.toList) :=
+  record_csv_roundtrip di _
+
+example : csvParse "\"a,\"\"b.py\",sha256=H1,3\nd.dist-info/RECORD,,\n".toList =
+    [["a,\"b.py".toList, "sha256=H1".toList, "3".toList], ["d.dist-info/RECORD".toList, [], []]] := by decide
+
 /-- **Each member once** — under the explicit, decidable guard `DistinctTargets` (pairwise distinct target paths, none
 of them RECORD).  Distinctness is NOT a theorem of the code: two file scripts with the same base name collide (see the
 report); the check evaluates the guard on every generated project. -/
